@@ -299,3 +299,21 @@ Theorem table_insert_nonelem :
 Proof. exact DomBlocks.table_insert_nonelem. Qed.
 Print Assumptions table_insert_nonelem.
 
+
+(* thead / tbody (Proofs/DomRows.v): text nodes and comments among their children change nothing,
+   given the section keeps a child (the recorded finding otherwise) *)
+From H2T Require Import Base Tagged Wrap Sub Css Dom Render Api CssParse Proofs.CssTotal Proofs.WrapInv Proofs.RenderWidth Proofs.Conserve Proofs.Footnotes Proofs.AnnBalance Proofs.RenderConserve Proofs.OptionRel Proofs.Compose Proofs.RenderTotal Proofs.FragStream Proofs.SimRel Proofs.Prune Proofs.DomBlocks Proofs.DomRows.
+
+Theorem tbody_insert_nonelem :
+  forall (sd : styledata) (udc : bool) (inl : list (text * text) -> res (list styledecl)) 
+         (name : text) (attrs : list (text * text)) (l1 : list node) (x : node) (l2 : list node)
+         (p : list anc) (idx : Z),
+       cps name = DomBlocks.Nm.thead \/ cps name = DomBlocks.Nm.tbody ->
+       is_elem x = false ->
+       process_kids sd udc inl (l1 ++ l2) ({| a_name := name; a_attrs := attrs; a_idx := idx |} :: p) 1 <>
+       Ok [] ->
+       process sd udc inl (NElem true name attrs (l1 ++ x :: l2)) p idx =
+       process sd udc inl (NElem true name attrs (l1 ++ l2)) p idx.
+Proof. exact DomRows.tbody_insert_nonelem. Qed.
+Print Assumptions tbody_insert_nonelem.
+
